@@ -44,7 +44,7 @@ REQUIRED = {
 
 
 def run(ctx):
-    for fn in (r1_shortcut, r2_flag_table, r3_symmetry, r4_regex_facts, r6_verdict_sources, r7_regex_call_shape, r8_wildcard_bounds, r9_quote_removal, r10_comparison_does_not_write_state, r11_run_state_is_forwarded, r12_got_want_roles, r4c_ansi_sequences):
+    for fn in (r1_shortcut, r2_flag_table, r3_symmetry, r3b_steps_reach_the_result, r4_regex_facts, r6_verdict_sources, r7_regex_call_shape, r8_wildcard_bounds, r9_quote_removal, r10_comparison_does_not_write_state, r11_run_state_is_forwarded, r12_got_want_roles, r4c_ansi_sequences):
         ctx.rep.rule(fn, ctx)
 
 
@@ -920,12 +920,99 @@ def r4c_ansi_sequences(ctx):
            'the ANSI pattern leaves or eats text on %s: a got that differs from the want only by such a colour code no longer matches' % bad, anchor=f.qualname)
 
 
+def r3b_steps_reach_the_result(ctx):
+    """FLOW: a normalisation step counts only if (i) its statement is reachable and (ii) what it produces flows into the text normalize() returns
+    for that side.  Backward slice from the returned (got, want) pair through the reaching definitions: the set of step roles met on each side must
+    contain every required role (the blank-line marker on the want side only)"""
+    rep = ctx.rep
+    f = ctx.func(NORM)
+    g = ctx.cfg(f)
+    rd = ctx.rd(f)
+    steps = classify_steps(ctx, f)
+    def const_truth(e):
+        if isinstance(e, ast.Constant):
+            return bool(e.value)
+        if isinstance(e, ast.UnaryOp) and isinstance(e.op, ast.Not):
+            t = const_truth(e.operand)
+            return None if t is None else not t
+        return None
+
+    def live_edges(a, b, kind, tok):
+        if kind != 'n':
+            return False
+        if b.kind == 'branch' and b.attrs['test'].kind == 'test' and b.attrs['polarity'] in (True, False):
+            t = const_truth(b.attrs['test'].ast)
+            if t is not None and t != b.attrs['polarity']:
+                return False
+        return True
+    reach = set(id(x) for x in graph.reachable([g.entry], efilter=live_edges))
+    call_of = {}
+    for st in steps:
+        top = st.via if st.via is not None else st.call
+        call_of.setdefault(id(top), []).append(st)
+        nodes = [n for n in g.nodes_containing(top) if not n.dup]
+        live = any(id(n) in reach for n in nodes)
+        if not live:
+            rep.ob('C05.R3b', ctx.loc(f, top), 'step %s: %s' % (st.role, ctx.src(top, 60)), False,
+                   'the statement that applies step `%s` cannot be reached (its guard is constantly false): the step is never applied' % st.role, anchor=NORM)
+    rets = [n for n in g.nodes if n.kind == 'stmt' and isinstance(n.ast, ast.Return) and not n.dup and isinstance(n.ast.value, ast.Tuple) and len(n.ast.value.elts) == 2]
+    need(rets, 'C05.R3b: normalize does not return a (got, want) pair')
+    roles = {'got': set(), 'want': set()}
+    for rn in rets:
+        for side, e0 in zip(('got', 'want'), rn.ast.value.elts):
+            seen = set()
+            work = [(rn, e0)]
+            while work:
+                node, e = work.pop()
+                if (id(node), id(e)) in seen:
+                    continue
+                seen.add((id(node), id(e)))
+                def pieces(x0):
+                    # a step call continues its SUBJECT only (norm_repr(got, want) returns a form of its first argument)
+                    sts = call_of.get(id(x0), [])
+                    if sts:
+                        for st in sts:
+                            roles[side].add(st.role)
+                        subj = sts[0].subj if sts[0].via is None else (sts[0].via.args[0] if sts[0].via.args else None)
+                        if subj is not None:
+                            yield from pieces(subj)
+                        return
+                    yield x0
+                    for ch in ast.iter_child_nodes(x0):
+                        yield from pieces(ch)
+                for x in pieces(e):
+                    if isinstance(x, ast.Name) and isinstance(x.ctx, ast.Load):
+                        for d in rd.at(node, x.id):
+                            v = d.value
+                            if isinstance(v, tuple) and v[0] == 'unpack' and isinstance(v[1], ast.Call) and isinstance(v[2], int) and len(v[1].args) > v[2]:
+                                # `got, want = helper(got, want)`: the i-th result continues the i-th argument
+                                for st in call_of.get(id(v[1]), []):
+                                    roles[side].add(st.role)
+                                work.append((d.node, v[1].args[v[2]]))
+                                continue
+                            v = d.base if hasattr(d, 'base') else v
+                            if isinstance(v, ast.AST):
+                                work.append((d.node, v))
+    rep.note('roles_reaching_the_result', {k: sorted(v) for k, v in roles.items()})
+    for role in sorted(REQUIRED):
+        for side in ('got', 'want'):
+            if role == 'blankline' and side == 'got':
+                continue
+            ok = role in roles[side]
+            rep.ob('C05.R3b', ctx.loc(f, rets[0].ast), 'step %s reaches the returned %s' % (role, side), ok,
+                   'on the data flow into the result' if ok else
+                   'no application of step `%s` lies on the data flow into the returned %s text: its result is computed and dropped, so the two sides are normalised differently' % (role, side),
+                   anchor=NORM)
+
+
 # ---------------------------------------------------------------------------
 from ..selftest import fire, silent      # noqa: E402
 
 CK = 'xdoctest/checker.py'
 US = 'xdoctest/utils/util_str.py'
 VARIANTS = [
+    fire('visible-text-of-the-want-dropped', 'C05.R3b', (CK, "    want = ''.join(want_lines)\n", "    pass\n")),
+    fire('prefix-normalisation-switched-off', 'C05.R3b', (CK, "    if True:\n        # normalize python 2/3 byte/unicode prefixes\n", "    if not True:\n        # normalize python 2/3 byte/unicode prefixes\n")),
     fire('ansi-pattern-needs-a-parameter-byte', 'C05.R4c', ('xdoctest/utils/util_str.py', "(\\x9B|\\x1B\\[)[0-?]*[ -/]*[@-~]", "(\\x9B|\\x1B\\[)[0-?]+[ -/]*[@-~]")),
     fire('repr-fallback-swaps-sides', 'C05.R12', (CK, "                flag = check_output(got, want, runstate)\n", "                flag = check_output(want, got, runstate)\n")),
     fire('ellipsis-matcher-sides-swapped', 'C05.R12', (CK, "        if _ellipsis_match(got, want):\n", "        if _ellipsis_match(want, got):\n")),
